@@ -684,6 +684,9 @@ fn state_causes(ex: &Exec, xcopy_done: bool) -> Vec<&'static str> {
         if !c.contains(&"adjacent-text-items") && has_adjacent_text(m) {
             c.push("adjacent-text-items");
         }
+        if !c.contains(&"short-name-not-first") && m.elements_dfs().any(|(_, e)| short_name_not_first(&e)) {
+            c.push("short-name-not-first");
+        }
         if !c.contains(&"named-without-short-name") && m.elements_dfs().any(|(_, e)| named_without_short_name(&e)) {
             c.push("named-without-short-name");
         }
@@ -700,6 +703,16 @@ fn state_causes(ex: &Exec, xcopy_done: bool) -> Vec<&'static str> {
 pub fn named_without_short_name(e: &Element) -> bool {
     let Ok(ver) = e.min_version() else { return false };
     e.element_type().is_named_in_version(ver) && e.get_sub_element(ElementName::ShortName).is_none()
+}
+
+/// the element's type is identifiable in the version in force and it has a SHORT-NAME, but not as its FIRST content item
+/// (possible for mixed content: the `*_at` calls accept position 0)
+pub fn short_name_not_first(e: &Element) -> bool {
+    let Ok(ver) = e.min_version() else { return false };
+    if !e.element_type().is_named_in_version(ver) || e.get_sub_element(ElementName::ShortName).is_none() {
+        return false;
+    }
+    !matches!(e.content().next(), Some(ElementContent::Element(s)) if s.element_name() == ElementName::ShortName)
 }
 
 /// duplicate AUTOSAR paths, computed from the tree
@@ -1478,6 +1491,9 @@ pub fn xver_main(args: &[String]) {
                                             // an element whose type is identifiable in the version of its file but that has no SHORT-NAME
                                             if mb.elements_dfs().any(|(_, x)| named_without_short_name(&x)) {
                                                 out.push("cause:named-without-short-name".to_string());
+                                            }
+                                            if mb.elements_dfs().any(|(_, x)| short_name_not_first(&x)) {
+                                                out.push("cause:short-name-not-first".to_string());
                                             }
                                         }
                                         return Ok((out, level));
